@@ -28,6 +28,7 @@ def parseOp (ws : List String) : Option Op :=
   | ["lead", m] => some (.lead (natArg m))
   | ["expire", m] => some (.expire (natArg m))
   | ["resign"] => some .resign
+  | ["dropkey"] => some .dropKey
   | ["getts", m, c] => some (.getTS (natArg m) (natArg c))
   | ["update", m, now, f] => some (.update (natArg m) (natArg now) (parseFault f))
   | ["gupdate", m, now] => some (.gupdate (natArg m) (natArg now))
@@ -42,7 +43,7 @@ def parseOp (ws : List String) : Option Op :=
 def opMember : Op → Nat
   | .lead m | .expire m | .getTS m _ | .update m _ _ | .gupdate m _ | .sync m _ _ | .gsync m _
   | .finish m _ | .setTS m _ _ _ _ | .resetMem m => m
-  | .resign => 0
+  | .resign | .dropKey => 0
 
 def viewStr (s : St) (m : Nat) : String :=
   let x := s.mems m
